@@ -35,7 +35,15 @@ def main():
             results = {}
     ev = tempfile.mkdtemp(prefix="pyspike_regr_evid_")
     try:
-        for sid in ids:
+        # changes whose home check had its keyword settings re-tuned come first
+        first = ("C03", "C04", "C07", "C08", "C15", "C16", "C17", "C12", "C05", "C06", "C14", "C18", "C01")
+
+        def rank(sid):
+            pr = json.load(open(os.path.join(sd, sid, "meta.json"))).get("property", "")
+            return (first.index(pr) if pr in first else len(first), sid)
+        for sid in sorted(ids, key=rank):
+            if sid in results and results[sid].get("checks") and all(r["exit"] in (0, 1) for r in results[sid]["checks"].values()):
+                continue
             meta = json.load(open(os.path.join(sd, sid, "meta.json")))
             det = [c for c, r in (meta.get("check_results") or {}).items() if r.get("exit") == 1]
             if not det:
